@@ -82,7 +82,7 @@ USER = {'user_vec': user_vec, 'user_col': user_col}
 
 
 def _dtype(name):
-    return {'float': float, 'int': np.int64}[name]
+    return {'float': float, 'int': np.int64, 'bool': np.bool_}[name]
 
 
 # ================================================================ section P: distance nodes
@@ -165,11 +165,18 @@ def distance_cases(ctx):
         else:
             grid = [-1, 0, 2, 3] if m <= 3 else [-1, 0, 2]
         for path, form in combos:
-            for obs, dtype in ([('A', 'float')] if q else [('A', 'float'), ('B', 'int')]):
+            # observation C is not integer-valued: integer / boolean typed simulated summaries must not truncate it
+            combos_od = [('A', 'float'), ('C', 'int')] if q else [('A', 'float'), ('B', 'int'), ('C', 'int'), ('C', 'float')]
+            if m <= 3:
+                combos_od.append(('C', 'bool'))
+            for obs, dtype in combos_od:
                 for metric in metrics:
                     for bs in ([1, 2, 3, 'all'] if q else [1, 2, 3, 4, 'all']):
+                        if q and dtype != 'float' and bs == 2:
+                            continue
                         cases.append({'kind': 'distance', 'path': path, 'obsform': form, 'layout': layout,
-                                      'obs': obs, 'metric': metric, 'dtype': dtype, 'bs': bs, 'grid': grid,
+                                      'obs': obs, 'metric': metric, 'dtype': dtype, 'bs': bs,
+                                      'grid': [0, 1] if dtype == 'bool' else grid,
                                       'stride': 0 if (q or bs == 4 or (m >= 5 and bs != 1)) else 1})
     return cases
 
